@@ -146,6 +146,10 @@ def gen_generic_seq(rng, gi):
                 u, v = rng.sample(units[-2:], 2)
             a = rat(Fraction(rng.randint(-50, 50), rng.choice([1, 2, 3])))
             ops.append(["q_conv", f"{a}@{u}", v, _money.MODE])
+            if rng.random() < .3:
+                # a converter object called directly, registered or not: its own
+                # table only (same unit: the amount; no row: None)
+                ops.append(["conv_call", rng.choice("PQR"), f"{a}@{u}", rng.choice([v, u]), _money.MODE])
     ops.append(["conv_list", cls])
     return {"ops": ops, "fork": True, "nsetup": nsetup, "generic_seq": True, "cls": cls,
             "tables": {n: [[f, t, rat(k), rat(o)] for f, t, k, o in rows] for n, rows in tables.items()},
@@ -174,6 +178,17 @@ def oracle_generic_seq(case, impl):
                 exp = "err ValueError"
         elif o[0] == "conv_list":
             exp = "ok " + ",".join(reversed(reg))
+        elif o[0] == "conv_call":
+            a, _, u = o[2].rpartition("@")
+            a, v, t = parse_rat(a), o[3], tables[o[1]]
+            if u == v:
+                exp = "ok " + rat(a)
+            elif (u, v) in t:
+                exp = "ok " + rat(t[(u, v)][0] * a + t[(u, v)][1])
+            elif (v, u) in t:
+                exp = "ok " + rat((a - t[(v, u)][1]) / t[(v, u)][0])
+            else:
+                exp = "ok none"
         else:
             a, _, u = o[1].rpartition("@")
             a, v = parse_rat(a), o[2]
